@@ -62,8 +62,11 @@ Inductive spcT := SIdle | SCas | SWgAdd | SSpawn | SDone.
 (* the user reading synchronously BEFORE it installs callbacks: readMore's pendingData.moveTo(recvBuf), then the
    Peek (k = 0) / ReadBytes (k > 0) itself *)
 Inductive sypcT := SyIdle | SyCons (k : nat).
-Inductive upcT := UIdle | UPut (m : list Z).
-Record ulocal := { upc : upcT; utodo : list (list Z); ures : list bool }.
+(* a user Flush: UIdle the call begins (WriteBytes into sendBuf; sendBuf.Len() > 0) ; ULd load state — not opened:
+   recycle sendBuf, ErrStreamClosed ; UPut queue element to the peer.  `aft` (ghost): some Close() had already
+   returned when the state was loaded *)
+Inductive upcT := UIdle | ULd (m : list Z) | UPut (m : list Z) (aft : bool).
+Record ulocal := { upc : upcT; utodo : list (list Z); ures : list (bool * bool) (* (nil?, aft) *) }.
 
 Inductive who := WEv | WGor (i : nat) | WClo (i : nat) | WSet | WUser (i : nat) | WSync.
 
@@ -96,67 +99,70 @@ Record est := {
   out : list ev;
   khalf : bool;
   lhalf : bool;
-  casfail : bool
+  casfail : bool;
+  nret : Z
 }.
 
 Definition set_st (v : Z) (s : est) : est :=
-  {| st := v; inproc := inproc s; cstate := cstate s; wg := wg s; cbset := cbset s; intable := intable s; cnotify := cnotify s; pending := pending s; recv := recv s; inbox := inbox s; epc := epc s; gors := gors s; clos := clos s; spc := spc s; users := users s; script := script s; sypc := sypc s; sytodo := sytodo s; processed := processed s; arrived := arrived s; chunks := chunks s; consumed := consumed s; offers := offers s; nlocal := nlocal s; nremote := nremote s; out := out s; khalf := khalf s; lhalf := lhalf s; casfail := casfail s |}.
+  {| st := v; inproc := inproc s; cstate := cstate s; wg := wg s; cbset := cbset s; intable := intable s; cnotify := cnotify s; pending := pending s; recv := recv s; inbox := inbox s; epc := epc s; gors := gors s; clos := clos s; spc := spc s; users := users s; script := script s; sypc := sypc s; sytodo := sytodo s; processed := processed s; arrived := arrived s; chunks := chunks s; consumed := consumed s; offers := offers s; nlocal := nlocal s; nremote := nremote s; out := out s; khalf := khalf s; lhalf := lhalf s; casfail := casfail s; nret := nret s |}.
 Definition set_inproc (v : Z) (s : est) : est :=
-  {| st := st s; inproc := v; cstate := cstate s; wg := wg s; cbset := cbset s; intable := intable s; cnotify := cnotify s; pending := pending s; recv := recv s; inbox := inbox s; epc := epc s; gors := gors s; clos := clos s; spc := spc s; users := users s; script := script s; sypc := sypc s; sytodo := sytodo s; processed := processed s; arrived := arrived s; chunks := chunks s; consumed := consumed s; offers := offers s; nlocal := nlocal s; nremote := nremote s; out := out s; khalf := khalf s; lhalf := lhalf s; casfail := casfail s |}.
+  {| st := st s; inproc := v; cstate := cstate s; wg := wg s; cbset := cbset s; intable := intable s; cnotify := cnotify s; pending := pending s; recv := recv s; inbox := inbox s; epc := epc s; gors := gors s; clos := clos s; spc := spc s; users := users s; script := script s; sypc := sypc s; sytodo := sytodo s; processed := processed s; arrived := arrived s; chunks := chunks s; consumed := consumed s; offers := offers s; nlocal := nlocal s; nremote := nremote s; out := out s; khalf := khalf s; lhalf := lhalf s; casfail := casfail s; nret := nret s |}.
 Definition set_cstate (v : Z) (s : est) : est :=
-  {| st := st s; inproc := inproc s; cstate := v; wg := wg s; cbset := cbset s; intable := intable s; cnotify := cnotify s; pending := pending s; recv := recv s; inbox := inbox s; epc := epc s; gors := gors s; clos := clos s; spc := spc s; users := users s; script := script s; sypc := sypc s; sytodo := sytodo s; processed := processed s; arrived := arrived s; chunks := chunks s; consumed := consumed s; offers := offers s; nlocal := nlocal s; nremote := nremote s; out := out s; khalf := khalf s; lhalf := lhalf s; casfail := casfail s |}.
+  {| st := st s; inproc := inproc s; cstate := v; wg := wg s; cbset := cbset s; intable := intable s; cnotify := cnotify s; pending := pending s; recv := recv s; inbox := inbox s; epc := epc s; gors := gors s; clos := clos s; spc := spc s; users := users s; script := script s; sypc := sypc s; sytodo := sytodo s; processed := processed s; arrived := arrived s; chunks := chunks s; consumed := consumed s; offers := offers s; nlocal := nlocal s; nremote := nremote s; out := out s; khalf := khalf s; lhalf := lhalf s; casfail := casfail s; nret := nret s |}.
 Definition set_wg (v : Z) (s : est) : est :=
-  {| st := st s; inproc := inproc s; cstate := cstate s; wg := v; cbset := cbset s; intable := intable s; cnotify := cnotify s; pending := pending s; recv := recv s; inbox := inbox s; epc := epc s; gors := gors s; clos := clos s; spc := spc s; users := users s; script := script s; sypc := sypc s; sytodo := sytodo s; processed := processed s; arrived := arrived s; chunks := chunks s; consumed := consumed s; offers := offers s; nlocal := nlocal s; nremote := nremote s; out := out s; khalf := khalf s; lhalf := lhalf s; casfail := casfail s |}.
+  {| st := st s; inproc := inproc s; cstate := cstate s; wg := v; cbset := cbset s; intable := intable s; cnotify := cnotify s; pending := pending s; recv := recv s; inbox := inbox s; epc := epc s; gors := gors s; clos := clos s; spc := spc s; users := users s; script := script s; sypc := sypc s; sytodo := sytodo s; processed := processed s; arrived := arrived s; chunks := chunks s; consumed := consumed s; offers := offers s; nlocal := nlocal s; nremote := nremote s; out := out s; khalf := khalf s; lhalf := lhalf s; casfail := casfail s; nret := nret s |}.
 Definition set_cbset (v : bool) (s : est) : est :=
-  {| st := st s; inproc := inproc s; cstate := cstate s; wg := wg s; cbset := v; intable := intable s; cnotify := cnotify s; pending := pending s; recv := recv s; inbox := inbox s; epc := epc s; gors := gors s; clos := clos s; spc := spc s; users := users s; script := script s; sypc := sypc s; sytodo := sytodo s; processed := processed s; arrived := arrived s; chunks := chunks s; consumed := consumed s; offers := offers s; nlocal := nlocal s; nremote := nremote s; out := out s; khalf := khalf s; lhalf := lhalf s; casfail := casfail s |}.
+  {| st := st s; inproc := inproc s; cstate := cstate s; wg := wg s; cbset := v; intable := intable s; cnotify := cnotify s; pending := pending s; recv := recv s; inbox := inbox s; epc := epc s; gors := gors s; clos := clos s; spc := spc s; users := users s; script := script s; sypc := sypc s; sytodo := sytodo s; processed := processed s; arrived := arrived s; chunks := chunks s; consumed := consumed s; offers := offers s; nlocal := nlocal s; nremote := nremote s; out := out s; khalf := khalf s; lhalf := lhalf s; casfail := casfail s; nret := nret s |}.
 Definition set_intable (v : bool) (s : est) : est :=
-  {| st := st s; inproc := inproc s; cstate := cstate s; wg := wg s; cbset := cbset s; intable := v; cnotify := cnotify s; pending := pending s; recv := recv s; inbox := inbox s; epc := epc s; gors := gors s; clos := clos s; spc := spc s; users := users s; script := script s; sypc := sypc s; sytodo := sytodo s; processed := processed s; arrived := arrived s; chunks := chunks s; consumed := consumed s; offers := offers s; nlocal := nlocal s; nremote := nremote s; out := out s; khalf := khalf s; lhalf := lhalf s; casfail := casfail s |}.
+  {| st := st s; inproc := inproc s; cstate := cstate s; wg := wg s; cbset := cbset s; intable := v; cnotify := cnotify s; pending := pending s; recv := recv s; inbox := inbox s; epc := epc s; gors := gors s; clos := clos s; spc := spc s; users := users s; script := script s; sypc := sypc s; sytodo := sytodo s; processed := processed s; arrived := arrived s; chunks := chunks s; consumed := consumed s; offers := offers s; nlocal := nlocal s; nremote := nremote s; out := out s; khalf := khalf s; lhalf := lhalf s; casfail := casfail s; nret := nret s |}.
 Definition set_cnotify (v : bool) (s : est) : est :=
-  {| st := st s; inproc := inproc s; cstate := cstate s; wg := wg s; cbset := cbset s; intable := intable s; cnotify := v; pending := pending s; recv := recv s; inbox := inbox s; epc := epc s; gors := gors s; clos := clos s; spc := spc s; users := users s; script := script s; sypc := sypc s; sytodo := sytodo s; processed := processed s; arrived := arrived s; chunks := chunks s; consumed := consumed s; offers := offers s; nlocal := nlocal s; nremote := nremote s; out := out s; khalf := khalf s; lhalf := lhalf s; casfail := casfail s |}.
+  {| st := st s; inproc := inproc s; cstate := cstate s; wg := wg s; cbset := cbset s; intable := intable s; cnotify := v; pending := pending s; recv := recv s; inbox := inbox s; epc := epc s; gors := gors s; clos := clos s; spc := spc s; users := users s; script := script s; sypc := sypc s; sytodo := sytodo s; processed := processed s; arrived := arrived s; chunks := chunks s; consumed := consumed s; offers := offers s; nlocal := nlocal s; nremote := nremote s; out := out s; khalf := khalf s; lhalf := lhalf s; casfail := casfail s; nret := nret s |}.
 Definition set_pending (v : list (list Z)) (s : est) : est :=
-  {| st := st s; inproc := inproc s; cstate := cstate s; wg := wg s; cbset := cbset s; intable := intable s; cnotify := cnotify s; pending := v; recv := recv s; inbox := inbox s; epc := epc s; gors := gors s; clos := clos s; spc := spc s; users := users s; script := script s; sypc := sypc s; sytodo := sytodo s; processed := processed s; arrived := arrived s; chunks := chunks s; consumed := consumed s; offers := offers s; nlocal := nlocal s; nremote := nremote s; out := out s; khalf := khalf s; lhalf := lhalf s; casfail := casfail s |}.
+  {| st := st s; inproc := inproc s; cstate := cstate s; wg := wg s; cbset := cbset s; intable := intable s; cnotify := cnotify s; pending := v; recv := recv s; inbox := inbox s; epc := epc s; gors := gors s; clos := clos s; spc := spc s; users := users s; script := script s; sypc := sypc s; sytodo := sytodo s; processed := processed s; arrived := arrived s; chunks := chunks s; consumed := consumed s; offers := offers s; nlocal := nlocal s; nremote := nremote s; out := out s; khalf := khalf s; lhalf := lhalf s; casfail := casfail s; nret := nret s |}.
 Definition set_recv (v : list Z) (s : est) : est :=
-  {| st := st s; inproc := inproc s; cstate := cstate s; wg := wg s; cbset := cbset s; intable := intable s; cnotify := cnotify s; pending := pending s; recv := v; inbox := inbox s; epc := epc s; gors := gors s; clos := clos s; spc := spc s; users := users s; script := script s; sypc := sypc s; sytodo := sytodo s; processed := processed s; arrived := arrived s; chunks := chunks s; consumed := consumed s; offers := offers s; nlocal := nlocal s; nremote := nremote s; out := out s; khalf := khalf s; lhalf := lhalf s; casfail := casfail s |}.
+  {| st := st s; inproc := inproc s; cstate := cstate s; wg := wg s; cbset := cbset s; intable := intable s; cnotify := cnotify s; pending := pending s; recv := v; inbox := inbox s; epc := epc s; gors := gors s; clos := clos s; spc := spc s; users := users s; script := script s; sypc := sypc s; sytodo := sytodo s; processed := processed s; arrived := arrived s; chunks := chunks s; consumed := consumed s; offers := offers s; nlocal := nlocal s; nremote := nremote s; out := out s; khalf := khalf s; lhalf := lhalf s; casfail := casfail s; nret := nret s |}.
 Definition set_inbox (v : list ev) (s : est) : est :=
-  {| st := st s; inproc := inproc s; cstate := cstate s; wg := wg s; cbset := cbset s; intable := intable s; cnotify := cnotify s; pending := pending s; recv := recv s; inbox := v; epc := epc s; gors := gors s; clos := clos s; spc := spc s; users := users s; script := script s; sypc := sypc s; sytodo := sytodo s; processed := processed s; arrived := arrived s; chunks := chunks s; consumed := consumed s; offers := offers s; nlocal := nlocal s; nremote := nremote s; out := out s; khalf := khalf s; lhalf := lhalf s; casfail := casfail s |}.
+  {| st := st s; inproc := inproc s; cstate := cstate s; wg := wg s; cbset := cbset s; intable := intable s; cnotify := cnotify s; pending := pending s; recv := recv s; inbox := v; epc := epc s; gors := gors s; clos := clos s; spc := spc s; users := users s; script := script s; sypc := sypc s; sytodo := sytodo s; processed := processed s; arrived := arrived s; chunks := chunks s; consumed := consumed s; offers := offers s; nlocal := nlocal s; nremote := nremote s; out := out s; khalf := khalf s; lhalf := lhalf s; casfail := casfail s; nret := nret s |}.
 Definition set_epc (v : epcT) (s : est) : est :=
-  {| st := st s; inproc := inproc s; cstate := cstate s; wg := wg s; cbset := cbset s; intable := intable s; cnotify := cnotify s; pending := pending s; recv := recv s; inbox := inbox s; epc := v; gors := gors s; clos := clos s; spc := spc s; users := users s; script := script s; sypc := sypc s; sytodo := sytodo s; processed := processed s; arrived := arrived s; chunks := chunks s; consumed := consumed s; offers := offers s; nlocal := nlocal s; nremote := nremote s; out := out s; khalf := khalf s; lhalf := lhalf s; casfail := casfail s |}.
+  {| st := st s; inproc := inproc s; cstate := cstate s; wg := wg s; cbset := cbset s; intable := intable s; cnotify := cnotify s; pending := pending s; recv := recv s; inbox := inbox s; epc := v; gors := gors s; clos := clos s; spc := spc s; users := users s; script := script s; sypc := sypc s; sytodo := sytodo s; processed := processed s; arrived := arrived s; chunks := chunks s; consumed := consumed s; offers := offers s; nlocal := nlocal s; nremote := nremote s; out := out s; khalf := khalf s; lhalf := lhalf s; casfail := casfail s; nret := nret s |}.
 Definition set_gors (v : list gpc) (s : est) : est :=
-  {| st := st s; inproc := inproc s; cstate := cstate s; wg := wg s; cbset := cbset s; intable := intable s; cnotify := cnotify s; pending := pending s; recv := recv s; inbox := inbox s; epc := epc s; gors := v; clos := clos s; spc := spc s; users := users s; script := script s; sypc := sypc s; sytodo := sytodo s; processed := processed s; arrived := arrived s; chunks := chunks s; consumed := consumed s; offers := offers s; nlocal := nlocal s; nremote := nremote s; out := out s; khalf := khalf s; lhalf := lhalf s; casfail := casfail s |}.
+  {| st := st s; inproc := inproc s; cstate := cstate s; wg := wg s; cbset := cbset s; intable := intable s; cnotify := cnotify s; pending := pending s; recv := recv s; inbox := inbox s; epc := epc s; gors := v; clos := clos s; spc := spc s; users := users s; script := script s; sypc := sypc s; sytodo := sytodo s; processed := processed s; arrived := arrived s; chunks := chunks s; consumed := consumed s; offers := offers s; nlocal := nlocal s; nremote := nremote s; out := out s; khalf := khalf s; lhalf := lhalf s; casfail := casfail s; nret := nret s |}.
 Definition set_clos (v : list cpc) (s : est) : est :=
-  {| st := st s; inproc := inproc s; cstate := cstate s; wg := wg s; cbset := cbset s; intable := intable s; cnotify := cnotify s; pending := pending s; recv := recv s; inbox := inbox s; epc := epc s; gors := gors s; clos := v; spc := spc s; users := users s; script := script s; sypc := sypc s; sytodo := sytodo s; processed := processed s; arrived := arrived s; chunks := chunks s; consumed := consumed s; offers := offers s; nlocal := nlocal s; nremote := nremote s; out := out s; khalf := khalf s; lhalf := lhalf s; casfail := casfail s |}.
+  {| st := st s; inproc := inproc s; cstate := cstate s; wg := wg s; cbset := cbset s; intable := intable s; cnotify := cnotify s; pending := pending s; recv := recv s; inbox := inbox s; epc := epc s; gors := gors s; clos := v; spc := spc s; users := users s; script := script s; sypc := sypc s; sytodo := sytodo s; processed := processed s; arrived := arrived s; chunks := chunks s; consumed := consumed s; offers := offers s; nlocal := nlocal s; nremote := nremote s; out := out s; khalf := khalf s; lhalf := lhalf s; casfail := casfail s; nret := nret s |}.
 Definition set_spc (v : spcT) (s : est) : est :=
-  {| st := st s; inproc := inproc s; cstate := cstate s; wg := wg s; cbset := cbset s; intable := intable s; cnotify := cnotify s; pending := pending s; recv := recv s; inbox := inbox s; epc := epc s; gors := gors s; clos := clos s; spc := v; users := users s; script := script s; sypc := sypc s; sytodo := sytodo s; processed := processed s; arrived := arrived s; chunks := chunks s; consumed := consumed s; offers := offers s; nlocal := nlocal s; nremote := nremote s; out := out s; khalf := khalf s; lhalf := lhalf s; casfail := casfail s |}.
+  {| st := st s; inproc := inproc s; cstate := cstate s; wg := wg s; cbset := cbset s; intable := intable s; cnotify := cnotify s; pending := pending s; recv := recv s; inbox := inbox s; epc := epc s; gors := gors s; clos := clos s; spc := v; users := users s; script := script s; sypc := sypc s; sytodo := sytodo s; processed := processed s; arrived := arrived s; chunks := chunks s; consumed := consumed s; offers := offers s; nlocal := nlocal s; nremote := nremote s; out := out s; khalf := khalf s; lhalf := lhalf s; casfail := casfail s; nret := nret s |}.
 Definition set_users (v : list ulocal) (s : est) : est :=
-  {| st := st s; inproc := inproc s; cstate := cstate s; wg := wg s; cbset := cbset s; intable := intable s; cnotify := cnotify s; pending := pending s; recv := recv s; inbox := inbox s; epc := epc s; gors := gors s; clos := clos s; spc := spc s; users := v; script := script s; sypc := sypc s; sytodo := sytodo s; processed := processed s; arrived := arrived s; chunks := chunks s; consumed := consumed s; offers := offers s; nlocal := nlocal s; nremote := nremote s; out := out s; khalf := khalf s; lhalf := lhalf s; casfail := casfail s |}.
+  {| st := st s; inproc := inproc s; cstate := cstate s; wg := wg s; cbset := cbset s; intable := intable s; cnotify := cnotify s; pending := pending s; recv := recv s; inbox := inbox s; epc := epc s; gors := gors s; clos := clos s; spc := spc s; users := v; script := script s; sypc := sypc s; sytodo := sytodo s; processed := processed s; arrived := arrived s; chunks := chunks s; consumed := consumed s; offers := offers s; nlocal := nlocal s; nremote := nremote s; out := out s; khalf := khalf s; lhalf := lhalf s; casfail := casfail s; nret := nret s |}.
 Definition set_script (v : list (nat * nat)) (s : est) : est :=
-  {| st := st s; inproc := inproc s; cstate := cstate s; wg := wg s; cbset := cbset s; intable := intable s; cnotify := cnotify s; pending := pending s; recv := recv s; inbox := inbox s; epc := epc s; gors := gors s; clos := clos s; spc := spc s; users := users s; script := v; sypc := sypc s; sytodo := sytodo s; processed := processed s; arrived := arrived s; chunks := chunks s; consumed := consumed s; offers := offers s; nlocal := nlocal s; nremote := nremote s; out := out s; khalf := khalf s; lhalf := lhalf s; casfail := casfail s |}.
+  {| st := st s; inproc := inproc s; cstate := cstate s; wg := wg s; cbset := cbset s; intable := intable s; cnotify := cnotify s; pending := pending s; recv := recv s; inbox := inbox s; epc := epc s; gors := gors s; clos := clos s; spc := spc s; users := users s; script := v; sypc := sypc s; sytodo := sytodo s; processed := processed s; arrived := arrived s; chunks := chunks s; consumed := consumed s; offers := offers s; nlocal := nlocal s; nremote := nremote s; out := out s; khalf := khalf s; lhalf := lhalf s; casfail := casfail s; nret := nret s |}.
 Definition set_sypc (v : sypcT) (s : est) : est :=
-  {| st := st s; inproc := inproc s; cstate := cstate s; wg := wg s; cbset := cbset s; intable := intable s; cnotify := cnotify s; pending := pending s; recv := recv s; inbox := inbox s; epc := epc s; gors := gors s; clos := clos s; spc := spc s; users := users s; script := script s; sypc := v; sytodo := sytodo s; processed := processed s; arrived := arrived s; chunks := chunks s; consumed := consumed s; offers := offers s; nlocal := nlocal s; nremote := nremote s; out := out s; khalf := khalf s; lhalf := lhalf s; casfail := casfail s |}.
+  {| st := st s; inproc := inproc s; cstate := cstate s; wg := wg s; cbset := cbset s; intable := intable s; cnotify := cnotify s; pending := pending s; recv := recv s; inbox := inbox s; epc := epc s; gors := gors s; clos := clos s; spc := spc s; users := users s; script := script s; sypc := v; sytodo := sytodo s; processed := processed s; arrived := arrived s; chunks := chunks s; consumed := consumed s; offers := offers s; nlocal := nlocal s; nremote := nremote s; out := out s; khalf := khalf s; lhalf := lhalf s; casfail := casfail s; nret := nret s |}.
 Definition set_sytodo (v : list nat) (s : est) : est :=
-  {| st := st s; inproc := inproc s; cstate := cstate s; wg := wg s; cbset := cbset s; intable := intable s; cnotify := cnotify s; pending := pending s; recv := recv s; inbox := inbox s; epc := epc s; gors := gors s; clos := clos s; spc := spc s; users := users s; script := script s; sypc := sypc s; sytodo := v; processed := processed s; arrived := arrived s; chunks := chunks s; consumed := consumed s; offers := offers s; nlocal := nlocal s; nremote := nremote s; out := out s; khalf := khalf s; lhalf := lhalf s; casfail := casfail s |}.
+  {| st := st s; inproc := inproc s; cstate := cstate s; wg := wg s; cbset := cbset s; intable := intable s; cnotify := cnotify s; pending := pending s; recv := recv s; inbox := inbox s; epc := epc s; gors := gors s; clos := clos s; spc := spc s; users := users s; script := script s; sypc := sypc s; sytodo := v; processed := processed s; arrived := arrived s; chunks := chunks s; consumed := consumed s; offers := offers s; nlocal := nlocal s; nremote := nremote s; out := out s; khalf := khalf s; lhalf := lhalf s; casfail := casfail s; nret := nret s |}.
 Definition set_processed (v : list ev) (s : est) : est :=
-  {| st := st s; inproc := inproc s; cstate := cstate s; wg := wg s; cbset := cbset s; intable := intable s; cnotify := cnotify s; pending := pending s; recv := recv s; inbox := inbox s; epc := epc s; gors := gors s; clos := clos s; spc := spc s; users := users s; script := script s; sypc := sypc s; sytodo := sytodo s; processed := v; arrived := arrived s; chunks := chunks s; consumed := consumed s; offers := offers s; nlocal := nlocal s; nremote := nremote s; out := out s; khalf := khalf s; lhalf := lhalf s; casfail := casfail s |}.
+  {| st := st s; inproc := inproc s; cstate := cstate s; wg := wg s; cbset := cbset s; intable := intable s; cnotify := cnotify s; pending := pending s; recv := recv s; inbox := inbox s; epc := epc s; gors := gors s; clos := clos s; spc := spc s; users := users s; script := script s; sypc := sypc s; sytodo := sytodo s; processed := v; arrived := arrived s; chunks := chunks s; consumed := consumed s; offers := offers s; nlocal := nlocal s; nremote := nremote s; out := out s; khalf := khalf s; lhalf := lhalf s; casfail := casfail s; nret := nret s |}.
 Definition set_arrived (v : list Z) (s : est) : est :=
-  {| st := st s; inproc := inproc s; cstate := cstate s; wg := wg s; cbset := cbset s; intable := intable s; cnotify := cnotify s; pending := pending s; recv := recv s; inbox := inbox s; epc := epc s; gors := gors s; clos := clos s; spc := spc s; users := users s; script := script s; sypc := sypc s; sytodo := sytodo s; processed := processed s; arrived := v; chunks := chunks s; consumed := consumed s; offers := offers s; nlocal := nlocal s; nremote := nremote s; out := out s; khalf := khalf s; lhalf := lhalf s; casfail := casfail s |}.
+  {| st := st s; inproc := inproc s; cstate := cstate s; wg := wg s; cbset := cbset s; intable := intable s; cnotify := cnotify s; pending := pending s; recv := recv s; inbox := inbox s; epc := epc s; gors := gors s; clos := clos s; spc := spc s; users := users s; script := script s; sypc := sypc s; sytodo := sytodo s; processed := processed s; arrived := v; chunks := chunks s; consumed := consumed s; offers := offers s; nlocal := nlocal s; nremote := nremote s; out := out s; khalf := khalf s; lhalf := lhalf s; casfail := casfail s; nret := nret s |}.
 Definition set_chunks (v : list (bool * list Z)) (s : est) : est :=
-  {| st := st s; inproc := inproc s; cstate := cstate s; wg := wg s; cbset := cbset s; intable := intable s; cnotify := cnotify s; pending := pending s; recv := recv s; inbox := inbox s; epc := epc s; gors := gors s; clos := clos s; spc := spc s; users := users s; script := script s; sypc := sypc s; sytodo := sytodo s; processed := processed s; arrived := arrived s; chunks := v; consumed := consumed s; offers := offers s; nlocal := nlocal s; nremote := nremote s; out := out s; khalf := khalf s; lhalf := lhalf s; casfail := casfail s |}.
+  {| st := st s; inproc := inproc s; cstate := cstate s; wg := wg s; cbset := cbset s; intable := intable s; cnotify := cnotify s; pending := pending s; recv := recv s; inbox := inbox s; epc := epc s; gors := gors s; clos := clos s; spc := spc s; users := users s; script := script s; sypc := sypc s; sytodo := sytodo s; processed := processed s; arrived := arrived s; chunks := v; consumed := consumed s; offers := offers s; nlocal := nlocal s; nremote := nremote s; out := out s; khalf := khalf s; lhalf := lhalf s; casfail := casfail s; nret := nret s |}.
 Definition set_consumed (v : list Z) (s : est) : est :=
-  {| st := st s; inproc := inproc s; cstate := cstate s; wg := wg s; cbset := cbset s; intable := intable s; cnotify := cnotify s; pending := pending s; recv := recv s; inbox := inbox s; epc := epc s; gors := gors s; clos := clos s; spc := spc s; users := users s; script := script s; sypc := sypc s; sytodo := sytodo s; processed := processed s; arrived := arrived s; chunks := chunks s; consumed := v; offers := offers s; nlocal := nlocal s; nremote := nremote s; out := out s; khalf := khalf s; lhalf := lhalf s; casfail := casfail s |}.
+  {| st := st s; inproc := inproc s; cstate := cstate s; wg := wg s; cbset := cbset s; intable := intable s; cnotify := cnotify s; pending := pending s; recv := recv s; inbox := inbox s; epc := epc s; gors := gors s; clos := clos s; spc := spc s; users := users s; script := script s; sypc := sypc s; sytodo := sytodo s; processed := processed s; arrived := arrived s; chunks := chunks s; consumed := v; offers := offers s; nlocal := nlocal s; nremote := nremote s; out := out s; khalf := khalf s; lhalf := lhalf s; casfail := casfail s; nret := nret s |}.
 Definition set_offers (v : list (list Z)) (s : est) : est :=
-  {| st := st s; inproc := inproc s; cstate := cstate s; wg := wg s; cbset := cbset s; intable := intable s; cnotify := cnotify s; pending := pending s; recv := recv s; inbox := inbox s; epc := epc s; gors := gors s; clos := clos s; spc := spc s; users := users s; script := script s; sypc := sypc s; sytodo := sytodo s; processed := processed s; arrived := arrived s; chunks := chunks s; consumed := consumed s; offers := v; nlocal := nlocal s; nremote := nremote s; out := out s; khalf := khalf s; lhalf := lhalf s; casfail := casfail s |}.
+  {| st := st s; inproc := inproc s; cstate := cstate s; wg := wg s; cbset := cbset s; intable := intable s; cnotify := cnotify s; pending := pending s; recv := recv s; inbox := inbox s; epc := epc s; gors := gors s; clos := clos s; spc := spc s; users := users s; script := script s; sypc := sypc s; sytodo := sytodo s; processed := processed s; arrived := arrived s; chunks := chunks s; consumed := consumed s; offers := v; nlocal := nlocal s; nremote := nremote s; out := out s; khalf := khalf s; lhalf := lhalf s; casfail := casfail s; nret := nret s |}.
 Definition set_nlocal (v : Z) (s : est) : est :=
-  {| st := st s; inproc := inproc s; cstate := cstate s; wg := wg s; cbset := cbset s; intable := intable s; cnotify := cnotify s; pending := pending s; recv := recv s; inbox := inbox s; epc := epc s; gors := gors s; clos := clos s; spc := spc s; users := users s; script := script s; sypc := sypc s; sytodo := sytodo s; processed := processed s; arrived := arrived s; chunks := chunks s; consumed := consumed s; offers := offers s; nlocal := v; nremote := nremote s; out := out s; khalf := khalf s; lhalf := lhalf s; casfail := casfail s |}.
+  {| st := st s; inproc := inproc s; cstate := cstate s; wg := wg s; cbset := cbset s; intable := intable s; cnotify := cnotify s; pending := pending s; recv := recv s; inbox := inbox s; epc := epc s; gors := gors s; clos := clos s; spc := spc s; users := users s; script := script s; sypc := sypc s; sytodo := sytodo s; processed := processed s; arrived := arrived s; chunks := chunks s; consumed := consumed s; offers := offers s; nlocal := v; nremote := nremote s; out := out s; khalf := khalf s; lhalf := lhalf s; casfail := casfail s; nret := nret s |}.
 Definition set_nremote (v : Z) (s : est) : est :=
-  {| st := st s; inproc := inproc s; cstate := cstate s; wg := wg s; cbset := cbset s; intable := intable s; cnotify := cnotify s; pending := pending s; recv := recv s; inbox := inbox s; epc := epc s; gors := gors s; clos := clos s; spc := spc s; users := users s; script := script s; sypc := sypc s; sytodo := sytodo s; processed := processed s; arrived := arrived s; chunks := chunks s; consumed := consumed s; offers := offers s; nlocal := nlocal s; nremote := v; out := out s; khalf := khalf s; lhalf := lhalf s; casfail := casfail s |}.
+  {| st := st s; inproc := inproc s; cstate := cstate s; wg := wg s; cbset := cbset s; intable := intable s; cnotify := cnotify s; pending := pending s; recv := recv s; inbox := inbox s; epc := epc s; gors := gors s; clos := clos s; spc := spc s; users := users s; script := script s; sypc := sypc s; sytodo := sytodo s; processed := processed s; arrived := arrived s; chunks := chunks s; consumed := consumed s; offers := offers s; nlocal := nlocal s; nremote := v; out := out s; khalf := khalf s; lhalf := lhalf s; casfail := casfail s; nret := nret s |}.
 Definition set_out (v : list ev) (s : est) : est :=
-  {| st := st s; inproc := inproc s; cstate := cstate s; wg := wg s; cbset := cbset s; intable := intable s; cnotify := cnotify s; pending := pending s; recv := recv s; inbox := inbox s; epc := epc s; gors := gors s; clos := clos s; spc := spc s; users := users s; script := script s; sypc := sypc s; sytodo := sytodo s; processed := processed s; arrived := arrived s; chunks := chunks s; consumed := consumed s; offers := offers s; nlocal := nlocal s; nremote := nremote s; out := v; khalf := khalf s; lhalf := lhalf s; casfail := casfail s |}.
+  {| st := st s; inproc := inproc s; cstate := cstate s; wg := wg s; cbset := cbset s; intable := intable s; cnotify := cnotify s; pending := pending s; recv := recv s; inbox := inbox s; epc := epc s; gors := gors s; clos := clos s; spc := spc s; users := users s; script := script s; sypc := sypc s; sytodo := sytodo s; processed := processed s; arrived := arrived s; chunks := chunks s; consumed := consumed s; offers := offers s; nlocal := nlocal s; nremote := nremote s; out := v; khalf := khalf s; lhalf := lhalf s; casfail := casfail s; nret := nret s |}.
 Definition set_khalf (v : bool) (s : est) : est :=
-  {| st := st s; inproc := inproc s; cstate := cstate s; wg := wg s; cbset := cbset s; intable := intable s; cnotify := cnotify s; pending := pending s; recv := recv s; inbox := inbox s; epc := epc s; gors := gors s; clos := clos s; spc := spc s; users := users s; script := script s; sypc := sypc s; sytodo := sytodo s; processed := processed s; arrived := arrived s; chunks := chunks s; consumed := consumed s; offers := offers s; nlocal := nlocal s; nremote := nremote s; out := out s; khalf := v; lhalf := lhalf s; casfail := casfail s |}.
+  {| st := st s; inproc := inproc s; cstate := cstate s; wg := wg s; cbset := cbset s; intable := intable s; cnotify := cnotify s; pending := pending s; recv := recv s; inbox := inbox s; epc := epc s; gors := gors s; clos := clos s; spc := spc s; users := users s; script := script s; sypc := sypc s; sytodo := sytodo s; processed := processed s; arrived := arrived s; chunks := chunks s; consumed := consumed s; offers := offers s; nlocal := nlocal s; nremote := nremote s; out := out s; khalf := v; lhalf := lhalf s; casfail := casfail s; nret := nret s |}.
 Definition set_lhalf (v : bool) (s : est) : est :=
-  {| st := st s; inproc := inproc s; cstate := cstate s; wg := wg s; cbset := cbset s; intable := intable s; cnotify := cnotify s; pending := pending s; recv := recv s; inbox := inbox s; epc := epc s; gors := gors s; clos := clos s; spc := spc s; users := users s; script := script s; sypc := sypc s; sytodo := sytodo s; processed := processed s; arrived := arrived s; chunks := chunks s; consumed := consumed s; offers := offers s; nlocal := nlocal s; nremote := nremote s; out := out s; khalf := khalf s; lhalf := v; casfail := casfail s |}.
+  {| st := st s; inproc := inproc s; cstate := cstate s; wg := wg s; cbset := cbset s; intable := intable s; cnotify := cnotify s; pending := pending s; recv := recv s; inbox := inbox s; epc := epc s; gors := gors s; clos := clos s; spc := spc s; users := users s; script := script s; sypc := sypc s; sytodo := sytodo s; processed := processed s; arrived := arrived s; chunks := chunks s; consumed := consumed s; offers := offers s; nlocal := nlocal s; nremote := nremote s; out := out s; khalf := khalf s; lhalf := v; casfail := casfail s; nret := nret s |}.
 Definition set_casfail (v : bool) (s : est) : est :=
-  {| st := st s; inproc := inproc s; cstate := cstate s; wg := wg s; cbset := cbset s; intable := intable s; cnotify := cnotify s; pending := pending s; recv := recv s; inbox := inbox s; epc := epc s; gors := gors s; clos := clos s; spc := spc s; users := users s; script := script s; sypc := sypc s; sytodo := sytodo s; processed := processed s; arrived := arrived s; chunks := chunks s; consumed := consumed s; offers := offers s; nlocal := nlocal s; nremote := nremote s; out := out s; khalf := khalf s; lhalf := lhalf s; casfail := v |}.
+  {| st := st s; inproc := inproc s; cstate := cstate s; wg := wg s; cbset := cbset s; intable := intable s; cnotify := cnotify s; pending := pending s; recv := recv s; inbox := inbox s; epc := epc s; gors := gors s; clos := clos s; spc := spc s; users := users s; script := script s; sypc := sypc s; sytodo := sytodo s; processed := processed s; arrived := arrived s; chunks := chunks s; consumed := consumed s; offers := offers s; nlocal := nlocal s; nremote := nremote s; out := out s; khalf := khalf s; lhalf := lhalf s; casfail := v; nret := nret s |}.
+Definition set_nret (v : Z) (s : est) : est :=
+  {| st := st s; inproc := inproc s; cstate := cstate s; wg := wg s; cbset := cbset s; intable := intable s; cnotify := cnotify s; pending := pending s; recv := recv s; inbox := inbox s; epc := epc s; gors := gors s; clos := clos s; spc := spc s; users := users s; script := script s; sypc := sypc s; sytodo := sytodo s; processed := processed s; arrived := arrived s; chunks := chunks s; consumed := consumed s; offers := offers s; nlocal := nlocal s; nremote := nremote s; out := out s; khalf := khalf s; lhalf := lhalf s; casfail := casfail s; nret := v |}.
 
 Fixpoint set_nth {A} (n : nat) (x : A) (l : list A) : list A :=
   match l, n with
@@ -170,6 +176,8 @@ Definition clear_pending (s : est) : est :=
 Definition move_pending (s : est) : est :=
   set_chunks (chunks s ++ [(true, concat (pending s))])
     (set_recv (recv s ++ concat (pending s)) (set_pending [] s)).
+
+Definition isret (c : cpc) : bool := match c with KRet => true | _ => false end.
 
 (* ---------- Close() / close() ---------- *)
 Definition cstep (s : est) (c : cpc) : est * cpc :=
@@ -240,7 +248,7 @@ Definition gstep (i : nat) (s : est) : est :=
         setg i (match snd r with
                 | KRet => match more with O => GCbEnd | S m => GCbClose KStart m end   (* Close() again in the same OnData *)
                 | c' => GCbClose c' more
-                end) (fst r)
+                end) (if negb (isret c) && isret (snd r) then set_nret (nret (fst r) + 1) (fst r) else fst r)
     | GCbEnd => setg i GMove s
     | GClr => setg i GLdCs (set_inproc 0 s)
     | GLdCs => if cstate s =? v_callbackWaitExit then setg i GWgDoneClose s else setg i GLen s
@@ -258,7 +266,9 @@ Definition gstep (i : nat) (s : est) : est :=
 Definition clstep (i : nat) (s : est) : est :=
   match nth_error (clos s) i with
   | None => s
-  | Some c => let r := cstep s c in set_clos (set_nth i (snd r) (clos (fst r))) (fst r)
+  | Some c => let r := cstep s c in
+              let s' := if negb (isret c) && isret (snd r) then set_nret (nret (fst r) + 1) (fst r) else fst r in
+              set_clos (set_nth i (snd r) (clos s')) s'   (* nret (ghost): Close() calls that have returned *)
   end.
 
 (* ---------- SetCallbacks ---------- *)
@@ -283,11 +293,12 @@ Definition ustep (i : nat) (s : est) : est :=
     match upc u with
     | UIdle => match utodo u with
                | [] => s
-               | m :: r => if st s =? c_streamOpened
-                           then setu {| upc := UPut m; utodo := r; ures := ures u |} s
-                           else setu {| upc := UIdle; utodo := r; ures := ures u ++ [false] |} s
+               | m :: r => setu {| upc := ULd m; utodo := r; ures := ures u |} s
                end
-    | UPut m => setu {| upc := UIdle; utodo := utodo u; ures := ures u ++ [true] |} (set_out (out s ++ [EData m]) s)
+    | ULd m => if st s =? c_streamOpened       (* stream.go Flush: `if state != uint32(streamOpened)` *)
+               then setu {| upc := UPut m (0 <? nret s); utodo := utodo u; ures := ures u |} s
+               else setu {| upc := UIdle; utodo := utodo u; ures := ures u ++ [(false, 0 <? nret s)] |} s
+    | UPut m aft => setu {| upc := UIdle; utodo := utodo u; ures := ures u ++ [(true, aft)] |} (set_out (out s ++ [EData m]) s)
     end
   end.
 
@@ -327,7 +338,7 @@ Definition init_sy (cb0 : bool) (inb : list ev) (ncl : nat) (scr : list (nat * n
      inbox := inb; epc := EIdle; gors := []; clos := repeat KStart ncl; spc := SIdle;
      users := map (fun p => {| upc := UIdle; utodo := p; ures := [] |}) ups; script := scr; sypc := SyIdle; sytodo := sy;
      processed := []; arrived := []; chunks := []; consumed := []; offers := [];
-     nlocal := 0; nremote := 0; out := []; khalf := false; lhalf := false; casfail := false |}.
+     nlocal := 0; nremote := 0; out := []; khalf := false; lhalf := false; casfail := false; nret := 0 |}.
 
 Definition init (cb0 : bool) (inb : list ev) (ncl : nat) (scr : list (nat * nat)) (ups : list (list (list Z))) : est :=
   init_sy cb0 inb ncl scr ups [].
